@@ -549,9 +549,9 @@ var tagSoup = []string{"Z:x", "Z:", "Z: ", "Z:x ", "Z: x", "Z:  ", "Z:x\v", "Z:\
 // to the seed. Monitors as everywhere in C11: no panic, bounded items, what is
 // accepted is a fixed point of its codec.
 var byteTemplates = map[string][]string{
-	"fasta":  {">nXm\nACGT\n", ">n\nACXGT\n>m\nA\n", ">X\nX\n", "X>n\nAC\n"},
-	"fastq":  {"@nXm\nACGT\n+\n!!!!\n", "@n\nAXGT\n+\n!!!!\n", "@n\nACGT\n+\n!X!!\n", "@n\nACGT\n+X\n!!!!\n", "X@n\nA\n+\n!\n"},
-	"sam":    {"qXr\t0\tref\t1\t2\t3M\t=\t3\t4\tACG\t!!!\n", "q\t0\trXf\t1\t2\tcXg\tnXt\t3\t4\tSXQ\tQXL\n", "q\t0\tr\t1\t2\tc\t=\t3\t4\tS\tQ\tzz:Z:aXb\tAA:i:1\n",
+	"fasta": {">nXm\nACGT\n", ">n\nACXGT\n>m\nA\n", ">X\nX\n", "X>n\nAC\n"},
+	"fastq": {"@nXm\nACGT\n+\n!!!!\n", "@n\nAXGT\n+\n!!!!\n", "@n\nACGT\n+\n!X!!\n", "@n\nACGT\n+X\n!!!!\n", "X@n\nA\n+\n!\n"},
+	"sam": {"qXr\t0\tref\t1\t2\t3M\t=\t3\t4\tACG\t!!!\n", "q\t0\trXf\t1\t2\tcXg\tnXt\t3\t4\tSXQ\tQXL\n", "q\t0\tr\t1\t2\tc\t=\t3\t4\tS\tQ\tzz:Z:aXb\tAA:i:1\n",
 		"q\t0\tr\t1\t2\tc\t=\t3\t4\tS\tQ\tzz:A:X\n", "q\t0\tr\t1\t2\tc\t=\t3\t4\tS\tQ\tzX:Z:v\tXz:i:1\n", "q\t0\tr\t1\t2\tc\t=\t3\t4\tS\tQ\tzz:Z:X\n", "@HD\tVN:X\nq\t0\tr\t1X\t2\tc\t=\t3\t4\tS\tQ\n"},
 	"bed":    {"cXr\t1\t2\n", "c\t1\t2\tnXm\n", "c\t1\t2\tn\t5\tX\n", "c\t1X\t2\n", "X\t1\t2\n", "c\t1\t2\tX\n"},
 	"newick": {"(aXb,c);", "('aXb',c);", "'X';", "X;", "(a:1X,b);", "(a,b)X;", "(a,b);X(c);", "('X''X',X)X;", "(a X b);", "('a'Xb);"},
